@@ -332,12 +332,13 @@ def coq_case(c, snaps):
 
 
 def finding_key(c):
-    """route x mutation class x depth: narrow enough that a different leak is still reported"""
+    """depth x mutation class x route.  Nested shapes: `nested:mutation=<class>:route=<route>` (a
+    KNOWN_FINDINGS entry `nested:mutation=<class>` covers every route: all routes copy with the same
+    CloneArrayValue); depth 1: `depth1:route=<route>:mutation=<mutation>` (never listed)"""
     m = c["mutation"]
     if m.startswith("nested"):
-        mclass = m.split("-", 1)[1]
-        return "route=%s:mutation=nested-%s:depth>=2" % (c["route"], mclass)
-    return "route=%s:mutation=%s:depth=1" % (c["route"], m)
+        return "nested:mutation=%s:route=%s:side=%s" % (m.split("-", 1)[1], c["route"], c["side"])
+    return "depth1:route=%s:mutation=%s:side=%s" % (c["route"], m, c["side"])
 
 
 def run_impl(binary, cases):
